@@ -366,19 +366,19 @@ Definition closure_fuel : nat := 200 * 100.
 
 (* Some n: accepted, n states possible at the end; None: out of fuel;
    rejected at event index i is reported as inl i *)
-Fixpoint accept_from (cur : list state) (obs : list label) (i : nat) : nat + option nat :=
+Fixpoint accept_from (fuel : nat) (cur : list state) (obs : list label) (i : nat) : nat + option nat :=
   match obs with
   | [] => inr (Some (length cur))
   | l :: t =>
     let next := flat_map (fun s => match step s l with Some s' => [s'] | None => [] end) cur in
-    match closure closure_fuel next [] with
+    match closure fuel next [] with
     | None => inr None
     | Some [] => inl i
-    | Some cl => accept_from cl t (S i)
+    | Some cl => accept_from fuel cl t (S i)
     end
   end.
 Definition accepts (m : mode) (obs : list label) : nat + option nat :=
   match closure closure_fuel [init m] [] with
-  | Some cl => accept_from cl obs 0
+  | Some cl => accept_from closure_fuel cl obs 0
   | None => inr None
   end.
